@@ -87,29 +87,36 @@ Proof.
   intros l. unfold key_match. apply andb_comm.
 Qed.
 
+Lemma walk_spec_right_rows lk rk nl Ls Rs : sorted_on lk Ls ->
+  Permutation (walk_spec_right nl (group_runs lk Ls) (group_runs rk Rs)) (right_rows_spec lk rk nl Ls Rs).
+Proof.
+  intros HL.
+  unfold right_rows_spec. rewrite <- (group_runs_concat rk Rs) at 2. rewrite flat_map_concat, flat_map_map.
+  unfold walk_spec_right. apply flat_map_perm_in. intros [k g] Hin. cbn [fst snd].
+  pose proof (group_runs_keys rk Rs) as F. rewrite Forall_forall in F. destruct (F _ Hin) as [_ Hk]. cbn [fst snd] in Hk.
+  rewrite <- (filter_by_key lk k Ls HL).
+  destruct (has_null k) eqn:En.
+  - apply perm_of_eq. unfold rpads. rewrite map_as_flat_map. apply flat_map_ext_in. intros r Hr.
+    rewrite (filter_ext _ (fun _ => false)); [rewrite filter_none; reflexivity|].
+    intros l. unfold key_match. rewrite (Hk r Hr).
+    destruct (row_eqb (keys_of lk l) k) eqn:E; [|reflexivity]. apply row_eqb_eq in E. rewrite E, En. reflexivity.
+  - assert (Hf : forall r, In r g -> filter (fun l => key_match lk rk l r) Ls = filter (fun l => row_eqb k (keys_of lk l)) Ls).
+    { intros r Hr. apply filter_ext. intros l. unfold key_match. rewrite (Hk r Hr).
+      destruct (row_eqb (keys_of lk l) k) eqn:E.
+      - apply row_eqb_eq in E. rewrite E, En, row_eqb_refl. reflexivity.
+      - cbn [andb]. symmetry. apply row_eqb_false. intros E'. rewrite <- E', row_eqb_refl in E. discriminate. }
+    destruct (filter (fun l => row_eqb k (keys_of lk l)) Ls) as [|l0 lc] eqn:Ef.
+    + apply perm_of_eq. unfold rpads. rewrite map_as_flat_map. apply flat_map_ext_in. intros r Hr. rewrite (Hf r Hr). reflexivity.
+    + eapply Permutation_trans; [apply cross_swap_perm|]. apply perm_of_eq. apply flat_map_ext_in. intros r Hr. rewrite (Hf r Hr). reflexivity.
+Qed.
+
 Theorem mergejoin_right_eq_hashjoin lk rk nl nr L R : sorted_on lk (concat L) -> sorted_on rk (concat R) ->
   Permutation (x_mergejoin JRight lk rk nl nr L R) (x_hashjoin JRight lk rk nl nr L R).
 Proof.
   intros HL HR. rewrite hashjoin_right_rows. unfold x_mergejoin.
   rewrite merge_walk_right; try (apply group_runs_inc; assumption); try lia.
   2:{ eapply Forall_impl; [|apply group_runs_keys]. intros kg [H _]. exact H. }
-  unfold right_rows_spec. rewrite <- (group_runs_concat rk (concat R)) at 2. rewrite flat_map_concat, flat_map_map.
-  unfold walk_spec_right. apply flat_map_perm_in. intros [k g] Hin. cbn [fst snd].
-  pose proof (group_runs_keys rk (concat R)) as F. rewrite Forall_forall in F. destruct (F _ Hin) as [_ Hk]. cbn [fst snd] in Hk.
-  rewrite <- (filter_by_key lk k (concat L) HL).
-  destruct (has_null k) eqn:En.
-  - apply perm_of_eq. unfold rpads. rewrite map_as_flat_map. apply flat_map_ext_in. intros r Hr.
-    rewrite (filter_ext _ (fun _ => false)); [rewrite filter_none; reflexivity|].
-    intros l. unfold key_match. rewrite (Hk r Hr).
-    destruct (row_eqb (keys_of lk l) k) eqn:E; [|reflexivity]. apply row_eqb_eq in E. rewrite E, En. reflexivity.
-  - assert (Hf : forall r, In r g -> filter (fun l => key_match lk rk l r) (concat L) = filter (fun l => row_eqb k (keys_of lk l)) (concat L)).
-    { intros r Hr. apply filter_ext. intros l. unfold key_match. rewrite (Hk r Hr).
-      destruct (row_eqb (keys_of lk l) k) eqn:E.
-      - apply row_eqb_eq in E. rewrite E, En, row_eqb_refl. reflexivity.
-      - cbn [andb]. symmetry. apply row_eqb_false. intros E'. rewrite <- E', row_eqb_refl in E. discriminate. }
-    destruct (filter (fun l => row_eqb k (keys_of lk l)) (concat L)) as [|l0 lc] eqn:Ef.
-    + apply perm_of_eq. unfold rpads. rewrite map_as_flat_map. apply flat_map_ext_in. intros r Hr. rewrite (Hf r Hr). reflexivity.
-    + eapply Permutation_trans; [apply cross_swap_perm|]. apply perm_of_eq. apply flat_map_ext_in. intros r Hr. rewrite (Hf r Hr). reflexivity.
+  apply walk_spec_right_rows. exact HL.
 Qed.
 
 (** non-vacuity *)
